@@ -1182,6 +1182,8 @@ mod convert {
         address: Option<u64>,
         /// The address that the source row had when its address was last restarted at 0.
         from_address: u64,
+        /// Whether a row has been returned for the current sequence.
+        in_sequence: bool,
         state: ConvertLineState,
     }
 
@@ -1306,6 +1308,7 @@ mod convert {
                 strings,
                 address: None,
                 from_address: 0,
+                in_sequence: false,
                 state: ConvertLineState::ReadRow,
             })
         }
@@ -1392,13 +1395,15 @@ mod convert {
                             self.from_address =
                                 self.from_address.wrapping_add(self.from_row.address());
                         }
-                        // Use address 0 so that all addresses are offsets.
-                        self.from_row.reset_address();
                         // Handle tombstones the same way that `from_row.execute` would have.
                         let address_size = self.from_program.header().encoding().address_size;
                         tombstone =
                             val < self.from_address || val >= u64::min_tombstone(address_size);
-                        if !tombstone {
+                        if tombstone {
+                            self.from_row.set_tombstone();
+                        } else {
+                            // Use address 0 so that all addresses are offsets.
+                            self.from_row.reset_address();
                             self.address = Some(val);
                             self.from_address = val;
                         }
@@ -1422,7 +1427,9 @@ mod convert {
                     // This instruction didn't generate a new row.
                     continue;
                 }
-                if tombstone {
+                // Skip tombstone rows, but if rows have already been returned for this
+                // sequence then it still needs its end, the same as `LineRows::next_row`.
+                if tombstone && !(self.from_row.end_sequence() && self.in_sequence) {
                     // Perform any reset that was required for the tombstone row.
                     // Normally this is done when `read_row` is called again, but for
                     // tombstones we loop immediately.
@@ -1435,6 +1442,7 @@ mod convert {
                     continue;
                 }
                 if self.from_row.end_sequence() {
+                    self.in_sequence = false;
                     if let Some(address) = self.address {
                         // The address of the end of the sequence was set directly.
                         self.state = ConvertLineState::EndSequence;
@@ -1442,6 +1450,7 @@ mod convert {
                     }
                     return Ok(Some(ConvertLineRow::EndSequence(self.from_row.address())));
                 }
+                self.in_sequence = true;
                 if let Some(address) = self.address.take() {
                     self.state = ConvertLineState::ConvertRow;
                     return Ok(Some(ConvertLineRow::SetAddress(address)));
